@@ -11,6 +11,7 @@
 From stdpp Require Import gmap.
 From Coq Require Import NArith ZArith.
 From SkV Require Import Bytes Codec CodecProofs Ledger ChainState Pow Validate ChainDefs ValidProofs ReplayProofs.
+From SkV Require PositionProofs.
 
 Theorem C01_accept_sound : forall sha scrypt blake verify P s b now s',
   add_block sha scrypt blake verify P s b now = Ok s' -> FV P b ->
@@ -20,6 +21,21 @@ Theorem C01_accept_sound : forall sha scrypt blake verify P s b now s',
     NoDup (concat (map tx_refs rest)) /\
     Forall (fun t => tx_inputs t <> [] /\ Forall (fun i => thin_air (in_ref i) = false) (tx_inputs t)) rest.
 Proof. exact accept_sound_spend. Qed.
+
+(* the same for every block POSITIONED above the checkpoint horizon (parent's height + 1 > horizon), whatever height
+   it declares: a declared height that differs from the position is rejected on both sides of the horizon *)
+Theorem C01_accept_sound_by_position : forall sha scrypt blake verify P s b now s',
+  add_block sha scrypt blake verify P s b now = Ok s' -> PositionProofs.FVpos P s b ->
+  exists cb rest u, b_txs b = cb :: rest /\ cs_utxo s !! b_prev b = Some u /\
+    Forall (fun t => Forall (fun i => exists o sg, u !! ref_key (in_ref i) = Some o /\ in_sig i = SigSecp sg /\
+                                  verify (out_pk o) sg (enc_tx (signable t)) = 1%N) (tx_inputs t)) rest /\
+    NoDup (concat (map tx_refs rest)) /\
+    Forall (fun t => tx_inputs t <> [] /\ Forall (fun i => thin_air (in_ref i) = false) (tx_inputs t)) rest.
+Proof.
+  intros sha scrypt blake verify P s b now s' H Hp.
+  exact (accept_sound_spend sha scrypt blake verify P s b now s' H
+           (PositionProofs.accepted_position_is_FV sha scrypt blake verify P s b now s' H Hp)).
+Qed.
 
 Theorem C01_signed_message_complete : forall a b, wf_tx a = true -> wf_tx b = true ->
   enc_tx (signable a) = enc_tx (signable b) ->
@@ -33,5 +49,6 @@ Theorem C01_chain_replay : forall sha l s ch b, arrivals sha l s -> stored sha s
 Proof. exact utxo_replay. Qed.
 
 Print Assumptions C01_accept_sound.
+Print Assumptions C01_accept_sound_by_position.
 Print Assumptions C01_signed_message_complete.
 Print Assumptions C01_chain_replay.
